@@ -83,5 +83,5 @@ def shard(m, items, maxlen=4):
 
 def run_partc(rc):
     quick = rc.tier == 'quick'
-    rc.pmap(shard, list(c07.TEMPLATES), chunk=1, maxlen=5 if quick else 6)
+    rc.pmap(shard, [t for t in c07.TEMPLATES if not t.startswith('element-name-')], chunk=1, maxlen=5 if quick else 6)
     rc.coverage['partc'] = {'programs': rc.count('c_programs'), 'accepted_inputs': rc.count('c_cases')}
